@@ -27,6 +27,9 @@ UNIONS = [
     ('align4', ['u8'], 4, '', '', 'align(4)'),
     ('Gpad', ['[u8; CN]', 'T'], 4, '<T: Copy, const CN: usize>', '<u16, 3>', None),
     ('G', ['T', '[u8; 2]'], 2, '<T: Copy>', '<u16>'),
+    # bounds in a where-clause (and one the field types need for well-formedness)
+    ('Gw', ['T', '[u8; 2]'], 2, '<T> where T: Copy', '<u16>'),
+    ('Gassoc', ['<T as Assoc>::Out', 'u8'], 2, '<T> where T: Assoc, <T as Assoc>::Out: Copy', '<u8>'),
     ('G2', ["&'a [T; 0]", 'usize'], 8, "<'a, T: Copy>", "<'static, u16>"),
 ]
 NAME = {'d': (None, 'Ty'), 'r1': ('name = Other', 'Other'), 'r2': ('name(Other)', 'Other'), 'r3': ('rename = "Other"', 'Other'),
@@ -174,4 +177,23 @@ def check(v, tier):
     run_behavioural(v, cases, 'C20', nontrivial_min=2, min_nontrivial_ratio=0.7, shard_size=12 if tier == 'quick' else 4, run_timeout=3000)
     from .common import run_rejects
     run_rejects(v, reject_cases(), 'C20')
+    # every union impl in a crate that does not link std (the byte views and builders must come from ::core)
+    from ..core import rt_run
+    ns = []
+    for uid, ftys, size, gdecl, ginst in [u[:5] for u in UNIONS if u[0] in ('u8+u16', 'a8+u32', 'pad5', 'G', 'Gw')]:
+        for nm in ('d', 'r1', 'o1'):
+            nmeta = NAME[nm][0]
+            metas = ['Debug(unsafe%s)' % (', ' + nmeta if nmeta else ''), 'PartialEq(unsafe)', 'Eq', 'Hash(unsafe)', 'Copy', 'Clone', 'Default']
+            fields = ''.join('    %spub f%d: %s,\n' % ('#[educe(Default)] ' if i == 0 and len(ftys) > 1 else '', i, t) for i, t in enumerate(ftys))
+            for ms in ([', '.join(metas)], metas):
+                src = '#[derive(Educe)]\n%spub union Ty%s {\n%s}\n' % (''.join('#[educe(%s)]\n' % m for m in ms), gdecl, fields)
+                ns.append(Case('C20|no_std|%s|%s|%d' % (uid, nm, len(ms)), src, {'union': uid, 'environment': '#![no_std]'}, expect='accept', run=False, depth=1))
+    nres = rt_run(ns, run=False, name='C20ns', shard_size=1000, prelude='#![no_std]\n#![allow(dead_code)]\npub mod sup {}\n')
+    v.add_states(ns)
+    for r in nres:
+        v.cov['evaluations'] += 1
+        if r.status != 'ok':
+            v.violation(r.case, 'does not compile in a #![no_std] crate: %s' % '; '.join((d['code'] or '') + ' ' + d['msg'][:160] for d in r.errors()[:2]))
+        else:
+            v.cov['traces_validated_against_impl'] += 1
     return v.finish(RULE, {'bounds': {'tier': tier, 'fields': 3, 'max_size': 8}})
